@@ -4,6 +4,7 @@ package main
 // buffers and hostile byte strings.
 
 import (
+	"bytes"
 	"strings"
 	"reflect"
 )
@@ -115,6 +116,25 @@ func (r *rng) fixedText(f *genField, canonical bool) string {
 	b := make([]byte, n)
 	for i := range b {
 		b[i] = r.textByte(pad)
+	}
+	// blank-like runs at the trimmed end that are NOT the pad: 8+ spaces / NULs / zeros in a field padded with something
+	// else, wide and no-break spaces, a '!' after a blank (pad xor 1), tabs - what a "smarter" trim may take for padding
+	if n >= 2 && r.chance(1, 3) {
+		tails := [][]byte{bytes.Repeat([]byte{' '}, 8), bytes.Repeat([]byte{' '}, 16), bytes.Repeat([]byte{0}, 8), bytes.Repeat([]byte{'0'}, 8),
+			{0xe3, 0x80, 0x80}, {0xe3, 0x80, 0x80, 0xe3, 0x80, 0x80}, {0xa1, 0xa1}, {0xc2, 0xa0}, {'\t'}, {' ', '!'}, {' ', '!', '!'}, {pad ^ 1}, {' ', pad ^ 1},
+			{pad ^ 0x80}, {'\r', '\n'}}
+		t := tails[r.intn(len(tails))]
+		if len(t) <= n {
+			if f.Left {
+				rev := append([]byte{}, t...)
+				for i, j := 0, len(rev)-1; i < j; i, j = i+1, j-1 {
+					rev[i], rev[j] = rev[j], rev[i]
+				}
+				copy(b, rev)
+			} else {
+				copy(b[n-len(t):], t)
+			}
+		}
 	}
 	if canonical && n > 0 {
 		if f.Left {
